@@ -416,3 +416,8 @@ def r06F(F):
 RULES.append(('06.F', 'filter_block remembers every transaction it reports, so that a justice transaction spending an in-block HTLC transaction of a revoked commitment is seen (11.F under C06)', r06F))
 RULES.append(('06.G', 'guard census: no reviewed call of a workspace function and no reviewed mutation of a stored collection gained a controlling branch condition (an added `&& cond`, early return / continue, more specific match arm in front of an act); counts per call site, name free (rules/guards.py)', lambda F: guards.for_property(F, 'C06', '06.G')))
 RULES.append(('06.W', 'field assignments: every reviewed (function, Type.field) direct assignment is still made - state that a path no longer updates, or updates only conditionally (get_or_insert for an overwrite); generalises NN.R (rules/writes.py)', lambda F: writes.for_property(F, 'C06', '06.W')))
+
+def r06H(F):
+	import C11
+	return C11.r11H(F, '06.H')
+RULES.append(('06.H', 'claims and contentious outpoints of a revoked commitment are stamped with the confirming block, not the tip (11.H under C06)', r06H))
